@@ -78,6 +78,11 @@ def gen_cases(rng, tier):
             o = rng.choice([Fraction(0), Fraction(32), Fraction(-160, 9), Fraction(27315, 100), Fraction(1, 7)])
             rows.append((u, v, k, o))
         ops.append(["conv_table", f"T{ti}", fmt_rows(rows)])
+        if ti % 2:
+            # a second, more recently registered converter that covers none of
+            # the pairs asked for: it answers None and the search goes on
+            ops += [["new_unit", f"T{ti}", f"t{ti}u8", "none"], ["new_unit", f"T{ti}", f"t{ti}u9", "none"],
+                    ["conv_table", f"T{ti}", fmt_rows([(f"t{ti}u8", f"t{ti}u9", Fraction(3), Fraction(1))])]]
         for _ in range(per // 2):
             u, v, w = rng.choice(units), rng.choice(units), rng.choice(units)
             a = _qty.tok(rng, _qty.amount(rng))
